@@ -1,0 +1,33 @@
+//go:build verif
+// +build verif
+
+// Package verifx re-exports constructors of proc/internal packages for the verification
+// harness, which lives outside this module tree (build tag "verif", add-only).
+package verifx
+
+import (
+	"github.com/samaritan-proxy/samaritan/host"
+	"github.com/samaritan-proxy/samaritan/pb/config/service"
+	"github.com/samaritan-proxy/samaritan/proc/internal/hc"
+	"github.com/samaritan-proxy/samaritan/proc/internal/lb"
+)
+
+// Balancer is lb.Balancer.
+type Balancer interface {
+	Name() string
+	PickHost(hosts []*host.Host) *host.Host
+}
+
+// NewBalancer is lb.New.
+func NewBalancer(p service.LoadBalancePolicy) Balancer { return lb.New(p) }
+
+// SetRandInt is lb.VerifSetRandInt.
+func SetRandInt(f func() int) func() { return lb.VerifSetRandInt(f) }
+
+// Monitor is hc.Monitor.
+type Monitor = hc.Monitor
+
+// NewMonitor is hc.VerifNewMonitor.
+func NewMonitor(fall, rise uint32, set *host.Set, script func(addr string) bool) (*Monitor, error) {
+	return hc.VerifNewMonitor(fall, rise, set, script)
+}
